@@ -76,7 +76,7 @@ Proof.
   apply G. now apply st_emit.
 Qed.
 
-Lemma st_visits : forall names st, I st -> I (fold_left (fun s n => visit n s) names st).
+Lemma pres_visits : forall names st, I st -> I (fold_left (fun s n => visit n s) names st).
 Proof. induction names; intros; cbn [fold_left]; [assumption|]. apply IHnames. now apply s_visit. Qed.
 
 Lemma st_fail : forall st k, I st -> I (fail st k).
@@ -234,7 +234,7 @@ Qed.
 Lemma st_goto : forall st fr below others path, I st -> I (goto p st fr below others path).
 Proof.
   intros. unfold goto. destruct (resolve p (f_place fr) path) as [[[pl b] names]|]; [|now apply st_fail].
-  apply s_threads. now apply st_visits.
+  apply s_threads. now apply pres_visits.
 Qed.
 
 Lemma st_do_target : forall st fr below others t, I st -> I (do_target p st fr below others t).
@@ -290,10 +290,10 @@ Proof.
   - apply IH. now apply st_do_target.
   - (* STunnel *)
     destruct (resolve p (f_place fr) t) as [[[pl b] names]|]; [|now apply st_fail].
-    apply IH. apply s_threads. now apply st_visits.
+    apply IH. apply s_threads. now apply pres_visits.
   - (* SThread *)
     destruct (resolve p (f_place fr) t) as [[[pl b] names]|]; [|now apply st_fail].
-    apply IH. apply s_threads. now apply st_visits.
+    apply IH. apply s_threads. now apply pres_visits.
   - (* SIf *)
     destruct (pick_branch p f (f_temps fr) here brs els) as [[b s1]|] eqn:E1; [|now apply st_lift].
     apply IH. apply s_threads. eapply st_pick; eauto.
@@ -349,13 +349,22 @@ Qed.
 
 Lemma once_inv_stable : stable once_inv.
 Proof.
-  constructor; unfold once_inv; intros; cbn in *; eauto.
-  - contradiction.
-  - apply in_app_or in H1. destruct H1 as [H1|[H1|[]]]; [eauto|]. subst pc0.
-    destruct H0 as [H0|H0]; [congruence | exact H0].
-  - destruct (take_choice_choices st pc b) as [E|[E1 E2]].
-    + rewrite E in H1. contradiction.
-    + rewrite E1 in H1. rewrite E2. eauto.
+  constructor; unfold once_inv.
+  - intros st o H pc Hin Hs. exact (H pc Hin Hs).
+  - intros st o H pc Hin Hs. exact (H pc Hin Hs).
+  - intros st o H pc Hin Hs. exact (H pc Hin Hs).
+  - intros st o H pc Hin Hs. exact (H pc Hin Hs).
+  - intros st o H pc Hin Hs. exact (H pc Hin Hs).
+  - intros st o H pc Hin Hs. exact (H pc Hin Hs).
+  - intros st o H pc Hin Hs. exact (H pc Hin Hs).
+  - intros st H pc Hin Hs. cbn in Hin. contradiction.
+  - intros st pc0 H Hok pc Hin Hs. cbn [set_choices st_choices st_chosen] in *.
+    apply in_app_or in Hin. destruct Hin as [Hin|[Hin|[]]]; [exact (H pc Hin Hs)|]. subst pc0.
+    destruct Hok as [Hok|Hok]; [congruence | exact Hok].
+  - intros st pc0 b H Hin0 pc Hin Hs.
+    destruct (take_choice_choices st pc0 b) as [E|[E1 E2]].
+    + rewrite E in Hin. contradiction.
+    + rewrite E1 in Hin. rewrite E2. exact (H pc Hin Hs).
 Qed.
 
 Lemma initial_once_inv : forall p, once_inv (initial p).
@@ -423,24 +432,34 @@ Proof.
       * apply IH.
 Qed.
 
+Lemma visit_count : forall st name, count_inv st -> count_inv (visit name st).
+Proof.
+  intros st name H n. unfold visit. cbn [st_visits st_trace]. unfold zcount at 1.
+  rewrite lookup_upsert. cbn [occ]. destruct (text_eqb n name) eqn:E.
+  - apply text_eqb_eq in E. subst n. rewrite <- (H name). lia.
+  - rewrite <- (H n). unfold zcount. destruct (lookup n (st_visits st)); lia.
+Qed.
+
 Lemma take_choice_count : forall st pc b, count_inv st -> count_inv (take_choice st pc b).
 Proof.
   intros st pc b H. unfold take_choice. destruct (pc_stack pc) as [|fr below].
   - intros n. cbn. apply H.
-  - destruct (c_label (pc_choice pc)); [|intros n; cbn; apply H].
-    intros n. unfold visit. cbn [st_visits st_trace]. unfold zcount at 1. rewrite lookup_upsert. cbn [occ].
-    destruct (text_eqb n _) eqn:E.
-    + apply text_eqb_eq in E. subst n. rewrite <- (H _). cbn. lia.
-    + change (zcount n (st_visits st) = (0 + occ n (st_trace st))%Z). rewrite (H n). lia.
+  - destruct (c_label (pc_choice pc)); [apply visit_count|]; intros n; cbn; apply H.
 Qed.
 
 Lemma count_stable : stable count_inv.
 Proof.
-  constructor; unfold count_inv; intros; cbn in *; eauto.
-  - unfold zcount at 1. rewrite lookup_upsert. destruct (text_eqb n0 n) eqn:E.
-    + apply text_eqb_eq in E. subst n0. rewrite <- (H n). lia.
-    + change (zcount n0 (st_visits st) = (0 + occ n0 (st_trace st))%Z). rewrite (H n0). lia.
-  - now apply take_choice_count.
+  constructor.
+  - intros st o H n. exact (H n).
+  - intros st o H n. exact (H n).
+  - intros st o H n. exact (H n).
+  - intros st o H n. exact (H n).
+  - intros st o H n. exact (H n).
+  - intros st o H n. exact (H n).
+  - intros st n H. now apply visit_count.
+  - intros st H n. exact (H n).
+  - intros st pc H _ n. exact (H n).
+  - intros st pc b H _. now apply take_choice_count.
 Qed.
 
 Theorem visits_equal_entries_lemma : forall p fuel path st n,
@@ -449,3 +468,21 @@ Proof.
   intros p fuel path st n E. revert n. change (count_inv st).
   eapply st_play; [apply count_stable | | exact E]. intros n. reflexivity.
 Qed.
+
+(* ------------------------------------------------------------------ the hypotheses are satisfiable *)
+Definition ex_prog : program :=
+  mkProgram [] [SDivert (TKnot (T "k0"))]
+    [mkKnot (T "k0") [] false
+       [SLine [IText (T "hello")] [] None;
+        SChoices [mkChoice 1 false None [] [IText (T "a")] false [] [] [] None false [SDivert (TKnot (T "k0"))];
+                  mkChoice 2 false None [] [IText (T "b")] false [] [] [] None false [SDivert TEnd]]] []].
+
+(* after choosing the once-only "a" the knot is played again and only "b" is on offer *)
+Example ex_once_only :
+  exists st, play 200 ex_prog (initial ex_prog) [0%nat] = Some st /\
+             st_chosen st = [1%nat] /\ map pc_text (st_choices st) = [T "b"] /\
+             zcount (T "k0") (st_visits st) = 1%Z /\ occ (T "k0") (st_trace st) = 1%Z.
+Proof. eexists. split; [vm_compute; reflexivity|]. repeat split. Qed.
+
+Example ex_clean_ws : clean_ws (T "  a   b  ") = T "a b".
+Proof. reflexivity. Qed.
